@@ -33,26 +33,26 @@ type intent struct {
 	msgs   []sdk.Msg
 	desc   string
 
-	send  *sendInfo
-	relay *relayMsg
-	upd   *updInfo
-	adv   *advInfo
-	gov   *govInfo
+	send       *sendInfo
+	relay      *relayMsg
+	upd        *updInfo
+	adv        *advInfo
+	gov        *govInfo
 	movesValue bool
 }
 
 type sendInfo struct {
-	user     *node.Account
-	dstIdx   int    // -1 if invalid destination
-	dstName  string
-	tok      *token
-	amount   *big.Int
-	feeTok   *token
-	feeAmt   *big.Int
-	call     callKind
-	callback bool
-	receiver common.Address
-	expectFail string // non-empty: the generator expects this send to fail (probe only)
+	user         *node.Account
+	dstIdx       int // -1 if invalid destination
+	dstName      string
+	tok          *token
+	amount       *big.Int
+	feeTok       *token
+	feeAmt       *big.Int
+	call         callKind
+	callback     bool
+	receiver     common.Address
+	expectFail   string // non-empty: the generator expects this send to fail (probe only)
 	agentFee     *big.Int
 	agentDst     int
 	agentDstName string
@@ -77,13 +77,13 @@ type govInfo struct {
 }
 
 type wireMsg struct {
-	kind   string // recv | ack
-	from   int    // chain that holds the commitment / ack
-	to     int    // chain that must receive the message
-	packet []byte
-	ack    []byte
-	height int64 // block on `from` in which it was written
-	key    string
+	kind    string // recv | ack
+	from    int    // chain that holds the commitment / ack
+	to      int    // chain that must receive the message
+	packet  []byte
+	ack     []byte
+	height  int64 // block on `from` in which it was written
+	key     string
 	dropped map[int]bool
 }
 
